@@ -193,7 +193,7 @@ func (e *Engine) callFn(s *State, f *Frame, x ssa.Value, fn *ssa.Function, bind 
 		return nil, false
 	}
 	// 1. harness API
-	if strings.HasPrefix(fn.Name(), "vf") && fn.Pkg != nil && (fn.Pkg == e.pkg || e.isHarnessFile(fn)) {
+	if strings.HasPrefix(fn.Name(), "vf") && e.isHarnessFile(fn) {
 		if h, ok := vfTable[baseName(fn.Name())]; ok {
 			return h(e, s, f, x, fn, args, at)
 		}
@@ -262,6 +262,9 @@ func baseName(n string) string {
 }
 
 func (e *Engine) isHarnessFile(fn *ssa.Function) bool {
+	if fn.Origin() != nil {
+		fn = fn.Origin()
+	}
 	p := e.fset.Position(fn.Pos())
 	return strings.Contains(p.Filename, "zz_verif_")
 }
